@@ -188,6 +188,11 @@ class MutualInfoClimateNetwork(ClimateNetwork):
         :return: the mutual information matrix at zero lag.
         """
         try:
+            #  A matrix stored earlier may belong to another selection of
+            #  samples (or another data set): only use it if no anomaly is
+            #  given
+            if anomaly is not None:
+                raise IOError
             #  Try to load MI from file
             if self.silence_level <= 1:
                 print("Loading mutual information matrix from "
